@@ -64,11 +64,11 @@ func EpollCtl(epfd int, op int, fd int, event *EpollEvent) error {
 		return std.EpollCtl(epfd, op, fd, event)
 	}
 	var ev uint32
-	var data int32
+	var data, pad int32
 	if event != nil {
-		ev, data = event.Events, event.Fd
+		ev, data, pad = event.Events, event.Fd, event.Pad
 	}
-	return kernel.K().EpollCtl(epfd, op, fd, ev, data)
+	return kernel.K().EpollCtl(epfd, op, fd, ev, data, pad)
 }
 
 func EpollWait(epfd int, events []EpollEvent, msec int) (int, error) {
@@ -80,7 +80,7 @@ func EpollWait(epfd int, events []EpollEvent, msec int) (int, error) {
 		return -1, err
 	}
 	for i, e := range evs {
-		events[i] = EpollEvent{Events: e.Events, Fd: e.Fd}
+		events[i] = EpollEvent{Events: e.Events, Fd: e.Fd, Pad: e.Pad}
 	}
 	return len(evs), nil
 }
